@@ -6,13 +6,27 @@ open Mieru.Driver Mieru.Replay
 instance (m ts : Int) : Decidable (tsAccept m ts) := by unfold tsAccept; infer_instance
 instance (I k ts : Int) : Decidable (keyAccept I k ts) := by unfold keyAccept; infer_instance
 
+/-- reporting only: which branch of the expiry/rotation code a call at `now` takes -/
+def rotKind (c : Cache) (now : Nat) : String :=
+  if now > c.exp + c.iv then "expired"
+  else if c.cur.length ≥ c.cap ∧ now > c.exp then "both"
+  else if c.cur.length ≥ c.cap then "size"
+  else if now > c.exp then "time"
+  else "none"
+
+/-- reporting only: where the signature is found after expiry/rotation -/
+def foundIn (c : Cache) (data : List UInt8) (now : Nat) : String :=
+  let c1 := rot c now
+  let s := fnv1a64 data
+  if (find c1.cur s).isSome then "current" else if (find c1.prev s).isSome then "previous" else "none"
+
 def getC (cs : List (Nat × Cache)) (id : Nat) : Option Cache := (cs.find? (·.1 == id)).map (·.2)
 def putC (cs : List (Nat × Cache)) (id : Nat) (c : Cache) : List (Nat × Cache) :=
   (id, c) :: cs.filter (·.1 != id)
 
 /-- ops (instants in ns, `Nat`):
   replay-new <id> <cap> <interval> <now>          → ok
-  replay-dup <id> <hex data> <hex tag> <now>      → ok <true|false> <len current> <len previous> | err no-cache
+  replay-dup <id> <hex data> <hex tag> <now>      → ok <true|false> <len current> <len previous> <expireTime> <rotation kind> <found in> | err no-cache
   replay-clear <id>                               → ok | err no-cache
   replay-sizes <id>                               → ok <len current> <len previous>
   replay-drop <id>                                → ok
@@ -39,7 +53,8 @@ def handler : IO Handler := do
         | some c =>
           let (c', r) := isDuplicate c data tag now
           st.modify fun cs => putC cs id c'
-          pure (some s!"ok {r} {c'.cur.length} {c'.prev.length}")
+          if c.cap = 0 then pure (some s!"ok {r} {c'.cur.length} {c'.prev.length} {c'.exp} disabled none") else
+          pure (some s!"ok {r} {c'.cur.length} {c'.prev.length} {c'.exp} {rotKind c now} {foundIn c data now}")
       | _, _, _, _ => pure (some "bad-op")
     | "replay-clear", [id] =>
       match id.toNat? with
